@@ -23,6 +23,9 @@ class FRej : Prop where
     Gen.Fsx.writeRejects c = true
   /-- `isAbs` is "starts with '/'" -/
   abs : ∀ p : Bytes, Gen.Fsx.isAbs p = true ↔ p.head? = some SEP
+  /-- nothing else is rejected -/
+  accepts : ∀ c : Bytes, c.head? ≠ some SEP → c ≠ dotB → c ≠ dotdotB → ¬ dotdotSlash <+: c →
+    Gen.Fsx.writeRejects c = false
 
 /-- O_CREATE and O_EXCL are passed to OpenFile, and MkdirAll(Dir(fp)) comes first. -/
 class FOpen : Prop where
